@@ -96,4 +96,304 @@ theorem parseChunk_spec (acc : Nat) (l : List Nat) :
       obtain ⟨h1, rfl⟩ := digitOf_some.mp hd
       simp only [ih, allDigits_cons, h1, true_and, dvalAcc]
 
+/-! ### the chunk loop `go` -/
+
+
+theorem BASE_def : BASE = 10 ^ 19 := by unfold BASE; rfl
+theorem POWER_def : POWER = 19 := rfl
+
+theorem go_nil (ub out n : Nat) : go ub out n 0 [] = .ok out := by
+  simp [go]
+
+theorem go_boundary_ovf (ub out : Nat) (b : Nat) (bs : List Nat) (h : ¬ out * BASE < 2 ^ ub) :
+    go ub out 0 0 (b :: bs) = .error .posOverflow := by
+  simp [go, h]
+
+theorem go_boundary_bad (ub out : Nat) (b : Nat) (bs : List Nat) (h : out * BASE < 2 ^ ub)
+    (hd : digitOf b = none) : go ub out 0 0 (b :: bs) = .error .invalidDigit := by
+  simp [go, h, hd]
+
+theorem go_boundary_ok (ub out : Nat) (b d : Nat) (bs : List Nat) (h : out * BASE < 2 ^ ub)
+    (hd : digitOf b = some d) : go ub out 0 0 (b :: bs) = go ub (out * BASE) d 1 bs := by
+  simp [go, h, hd, POWER_def]
+
+theorem go_inner_bad (ub out n k : Nat) (b : Nat) (bs : List Nat) (hk : k ≠ 0)
+    (hd : digitOf b = none) : go ub out n k (b :: bs) = .error .invalidDigit := by
+  simp [go, hk, hd]
+
+theorem go_inner_ok (ub out n k : Nat) (b d : Nat) (bs : List Nat) (hk : k ≠ 0) (hl : k + 1 ≠ 19)
+    (hd : digitOf b = some d) : go ub out n k (b :: bs) = go ub out (n * 10 + d) (k + 1) bs := by
+  simp [go, hk, hd, POWER_def, hl]
+
+theorem go_last_ovf (ub out n k : Nat) (b d : Nat) (bs : List Nat) (hk : k ≠ 0) (hl : k + 1 = 19)
+    (hd : digitOf b = some d) (h : ¬ out + (n * 10 + d) < 2 ^ ub) :
+    go ub out n k (b :: bs) = .error .posOverflow := by
+  simp [go, hk, hd, POWER_def, hl, h]
+
+theorem go_last_ok (ub out n k : Nat) (b d : Nat) (bs : List Nat) (hk : k ≠ 0) (hl : k + 1 = 19)
+    (hd : digitOf b = some d) (h : out + (n * 10 + d) < 2 ^ ub) :
+    go ub out n k (b :: bs) = go ub (out + (n * 10 + d)) 0 0 bs := by
+  simp [go, hk, hd, POWER_def, hl, h]
+
+
+
+/-- state invariant of the chunk loop: `A` is the value of all digits consumed so far -/
+def GoInv (ub out n k A : Nat) : Prop :=
+  (k = 0 ∧ n = 0 ∧ out = A ∧ A < 2 ^ ub) ∨
+  (0 < k ∧ k < 19 ∧ ∃ A0, out = A0 * BASE ∧ A = A0 * 10 ^ k + n)
+
+theorem pow_ge_of_le {a b : Nat} (h : a ≤ b) : 10 ^ a ≤ 10 ^ b := Nat.pow_le_pow_right (by norm_num) h
+
+theorem go_spec (ub : Nat) (bs : List Nat) : ∀ (out n k A : Nat), GoInv ub out n k A →
+    (k + bs.length) % 19 = 0 →
+    (AllDigits bs → go ub out n k bs =
+      if A * 10 ^ bs.length + dval bs < 2 ^ ub then .ok (A * 10 ^ bs.length + dval bs) else .error .posOverflow) ∧
+    (¬ AllDigits bs → ∃ e, go ub out n k bs = .error e) := by
+  induction bs with
+  | nil =>
+    intro out n k A hinv hk
+    rcases hinv with ⟨hk0, hn, hout, hA⟩ | ⟨h1, h2, _⟩
+    · subst hk0 hn hout
+      refine ⟨fun _ => ?_, fun h => absurd allDigits_nil h⟩
+      rw [go_nil]
+      simp [dval_nil, hA]
+    · simp at hk; omega
+  | cons b bs ih =>
+    intro out n k A hinv hk
+    rw [allDigits_cons]
+    have hpos : 0 < (10:Nat) ^ bs.length := Nat.pow_pos (by norm_num)
+    have hT : A * 10 ^ (b :: bs).length + dval (b :: bs) =
+        (A * 10 + dig b) * 10 ^ bs.length + dval bs := by
+      rw [dval_cons, List.length_cons]; ring
+    rw [hT]
+    simp only [List.length_cons] at hk
+    rcases hinv with ⟨hk0, hn, hout, hA⟩ | ⟨hkpos, hk19, A0, hout, hAeq⟩
+    · -- at a chunk boundary
+      subst hk0 hn hout
+      have hlen : 19 ≤ bs.length + 1 := by omega
+      by_cases hmul : out * BASE < 2 ^ ub
+      · cases hd : digitOf b with
+        | none =>
+          have hnd := digitOf_none.mp hd
+          exact ⟨fun h => absurd h.1 hnd, fun _ => ⟨.invalidDigit, go_boundary_bad _ _ _ _ hmul hd⟩⟩
+        | some d =>
+          obtain ⟨hbd, rfl⟩ := digitOf_some.mp hd
+          have hinv' : GoInv ub (out * BASE) (dig b) 1 (out * 10 + dig b) :=
+            Or.inr ⟨by omega, by omega, out, rfl, by ring⟩
+          obtain ⟨ih1, ih2⟩ := ih _ _ _ _ hinv' (by omega)
+          rw [go_boundary_ok _ _ _ _ _ hmul hd]
+          exact ⟨fun h => ih1 h.2, fun h => ih2 (fun h2 => h ⟨hbd, h2⟩)⟩
+      · rw [go_boundary_ovf _ _ _ _ hmul]
+        refine ⟨fun _ => ?_, fun _ => ⟨_, rfl⟩⟩
+        have h0 : (10:Nat) ^ 19 ≤ 10 * 10 ^ bs.length := by
+          have := pow_ge_of_le hlen
+          rw [pow_succ] at this; omega
+        have h1 : out * BASE ≤ out * (10 * 10 ^ bs.length) := by
+          rw [BASE_def]; exact Nat.mul_le_mul_left _ h0
+        have h2 : out * (10 * 10 ^ bs.length) ≤ (out * 10 + dig b) * 10 ^ bs.length := by
+          have : out * (10 * 10 ^ bs.length) = (out * 10) * 10 ^ bs.length := by ring
+          rw [this]; exact Nat.mul_le_mul_right _ (by omega)
+        have : ¬ ((out * 10 + dig b) * 10 ^ bs.length + dval bs < 2 ^ ub) := by omega
+        simp [this]
+    · -- inside a chunk
+      subst hout
+      have hkne : k ≠ 0 := by omega
+      cases hd : digitOf b with
+      | none =>
+        have hnd := digitOf_none.mp hd
+        exact ⟨fun h => absurd h.1 hnd, fun _ => ⟨.invalidDigit, go_inner_bad _ _ _ _ _ _ hkne hd⟩⟩
+      | some d =>
+        obtain ⟨hbd, rfl⟩ := digitOf_some.mp hd
+        by_cases hlast : k + 1 = 19
+        · -- the chunk is complete: add
+          have hA' : A * 10 + dig b = A0 * BASE + (n * 10 + dig b) := by
+            rw [hAeq]
+            have : BASE = 10 ^ k * 10 := by rw [BASE_def, ← pow_succ, hlast]
+            rw [this]; ring
+          by_cases hadd : A0 * BASE + (n * 10 + dig b) < 2 ^ ub
+          · have hinv' : GoInv ub (A0 * BASE + (n * 10 + dig b)) 0 0 (A * 10 + dig b) :=
+              Or.inl ⟨rfl, rfl, hA'.symm, by omega⟩
+            obtain ⟨ih1, ih2⟩ := ih _ _ _ _ hinv' (by omega)
+            rw [go_last_ok _ _ _ _ _ _ _ hkne hlast hd hadd]
+            exact ⟨fun h => ih1 h.2, fun h => ih2 (fun h2 => h ⟨hbd, h2⟩)⟩
+          · rw [go_last_ovf _ _ _ _ _ _ _ hkne hlast hd hadd]
+            refine ⟨fun _ => ?_, fun _ => ⟨_, rfl⟩⟩
+            have h1 : (A * 10 + dig b) * 1 ≤ (A * 10 + dig b) * 10 ^ bs.length :=
+              Nat.mul_le_mul_left _ hpos
+            have : ¬ ((A * 10 + dig b) * 10 ^ bs.length + dval bs < 2 ^ ub) := by omega
+            simp [this]
+        · have hinv' : GoInv ub (A0 * BASE) (n * 10 + dig b) (k + 1) (A * 10 + dig b) :=
+            Or.inr ⟨by omega, by omega, A0, rfl, by rw [hAeq, pow_succ]; ring⟩
+          obtain ⟨ih1, ih2⟩ := ih _ _ _ _ hinv' (by omega)
+          rw [go_inner_ok _ _ _ _ _ _ _ hkne hlast hd]
+          exact ⟨fun h => ih1 h.2, fun h => ih2 (fun h2 => h ⟨hbd, h2⟩)⟩
+
+
+/-! ### `parseU`, `parseInt` -/
+
+
+/-- length of the first chunk -/
+def splitLen (ds : List Nat) : Nat := if ds.length % 19 = 0 then 19 else ds.length % 19
+
+theorem parseU_eq (ub : Nat) (ds : List Nat) : parseU ub ds =
+    match parseChunk 0 (ds.take (splitLen ds)) with
+    | none => .error .invalidDigit
+    | some first => go ub first 0 0 (ds.drop (splitLen ds)) := rfl
+
+theorem parseU_spec (ub : Nat) (hub : 10 ^ 19 ≤ 2 ^ ub) (ds : List Nat) (hne : ds ≠ []) :
+    (AllDigits ds → parseU ub ds =
+      if dval ds < 2 ^ ub then .ok (dval ds) else .error .posOverflow) ∧
+    (¬ AllDigits ds → ∃ e, parseU ub ds = .error e) := by
+  have hlen : 0 < ds.length := List.length_pos_iff.mpr hne
+  rw [parseU_eq]
+  generalize hsplit : splitLen ds = split
+  have hs1 : split ≤ ds.length := by
+    rw [← hsplit]; unfold splitLen; split <;> omega
+  have hs2 : (ds.length - split) % 19 = 0 := by
+    rw [← hsplit]; unfold splitLen; split <;> omega
+  have hs3 : split ≤ 19 := by
+    rw [← hsplit]; unfold splitLen; split <;> omega
+  have hds : ds = ds.take split ++ ds.drop split := (List.take_append_drop split ds).symm
+  have hall : AllDigits ds ↔ AllDigits (ds.take split) ∧ AllDigits (ds.drop split) := by
+    conv_lhs => rw [hds]
+    exact allDigits_append
+  have hval : dval ds = dval (ds.take split) * 10 ^ (ds.drop split).length + dval (ds.drop split) := by
+    conv_lhs => rw [hds]
+    exact dval_append _ _
+  rw [parseChunk_spec]
+  by_cases h1 : AllDigits (ds.take split)
+  · rw [if_pos h1]
+    have hlt : dval (ds.take split) < 2 ^ ub := by
+      have := dval_lt _ h1
+      have h2 : (ds.take split).length ≤ 19 := by rw [List.length_take]; omega
+      have := pow_ge_of_le h2
+      omega
+    have hinv : GoInv ub (dvalAcc 0 (ds.take split)) 0 0 (dval (ds.take split)) :=
+      Or.inl ⟨rfl, rfl, rfl, hlt⟩
+    have hk : (0 + (ds.drop split).length) % 19 = 0 := by
+      rw [List.length_drop]; omega
+    obtain ⟨g1, g2⟩ := go_spec ub (ds.drop split) _ _ _ _ hinv hk
+    rw [hall, hval]
+    exact ⟨fun h => g1 h.2, fun h => g2 (fun h2 => h ⟨h1, h2⟩)⟩
+  · rw [if_neg h1]
+    rw [hall]
+    exact ⟨fun h => absurd h.1 h1, fun _ => ⟨_, rfl⟩⟩
+
+/-- `finishInt` applied to the outcome of parsing a magnitude of exact value `d` -/
+theorem finishInt_ok_iff (bits : Nat) (hb : 0 < bits) (neg : Bool) (d : Nat) (v : Int) :
+    finishInt bits neg (if d < 2 ^ bits then .ok d else .error .posOverflow) = .ok v ↔
+      (if neg = true then d ≤ 2 ^ (bits - 1) ∧ v = -(d : Int) else d < 2 ^ (bits - 1) ∧ v = (d : Int)) := by
+  have hpow : 2 ^ (bits - 1) < 2 ^ bits := Nat.pow_lt_pow_right (by norm_num) (by omega)
+  by_cases hlt : d < 2 ^ bits
+  · rw [if_pos hlt]
+    cases neg
+    · simp only [finishInt, Bool.false_eq_true, if_false]
+      by_cases hr : 2 ^ (bits - 1) ≤ d
+      · rw [if_pos hr]
+        constructor
+        · intro h; cases h
+        · rintro ⟨h, _⟩; omega
+      · rw [if_neg hr]
+        constructor
+        · intro h; cases h; exact ⟨by omega, rfl⟩
+        · rintro ⟨_, rfl⟩; rfl
+    · simp only [finishInt, if_true]
+      by_cases hr : 2 ^ (bits - 1) ≤ d ∧ d ≠ 2 ^ (bits - 1)
+      · rw [if_pos hr]
+        constructor
+        · intro h; cases h
+        · rintro ⟨h, _⟩; omega
+      · rw [if_neg hr]
+        constructor
+        · intro h; cases h; exact ⟨by omega, rfl⟩
+        · rintro ⟨_, rfl⟩; rfl
+  · rw [if_neg hlt]
+    cases neg
+    · simp only [finishInt, Bool.false_eq_true, and_false, if_false]
+      constructor
+      · intro h; cases h
+      · rintro ⟨h, _⟩; omega
+    · simp only [finishInt, and_self, if_true]
+      constructor
+      · intro h; cases h
+      · rintro ⟨h, _⟩; omega
+
+theorem finishInt_error (bits : Nat) (neg : Bool) (e : IErr) (v : Int) :
+    finishInt bits neg (.error e) ≠ .ok v := by
+  simp only [finishInt]
+  split <;> simp
+
+/-- the bytes after an optional leading sign -/
+def intBody : List Nat → List Nat
+  | [] => []
+  | c :: rest => if c = 45 ∨ c = 43 then rest else c :: rest
+
+/-- the text starts with `-` -/
+def isNeg (s : List Nat) : Prop := s.head? = some 45
+
+instance (s : List Nat) : Decidable (isNeg s) := by unfold isNeg; exact inferInstance
+
+/-- acceptance and value of the signed integer parser -/
+theorem parseU_ok_iff (bits : Nat) (hub : 10 ^ 19 ≤ 2 ^ bits) (ds : List Nat) (hne : ds ≠ []) (neg : Bool) (v : Int) :
+    finishInt bits neg (parseU bits ds) = .ok v ↔
+      AllDigits ds ∧
+      (if neg = true then dval ds ≤ 2 ^ (bits - 1) ∧ v = -(dval ds : Int)
+       else dval ds < 2 ^ (bits - 1) ∧ v = (dval ds : Int)) := by
+  obtain ⟨p1, p2⟩ := parseU_spec bits hub ds hne
+  by_cases hall : AllDigits ds
+  · have hb : 0 < bits := by
+      rcases Nat.eq_zero_or_pos bits with h | h
+      · subst h; norm_num at hub
+      · exact h
+    rw [p1 hall, finishInt_ok_iff _ hb]
+    simp only [hall, true_and]
+  · obtain ⟨e, he⟩ := p2 hall
+    rw [he]
+    simp only [hall, false_and, iff_false]
+    exact finishInt_error _ _ _ _
+
+theorem parseInt_ok_iff (bits : Nat) (hub : 10 ^ 19 ≤ 2 ^ bits) (s : List Nat) (v : Int) :
+    parseInt bits s = .ok v ↔
+      intBody s ≠ [] ∧ AllDigits (intBody s) ∧
+      (if isNeg s then dval (intBody s) ≤ 2 ^ (bits - 1) ∧ v = -(dval (intBody s) : Int)
+       else dval (intBody s) < 2 ^ (bits - 1) ∧ v = (dval (intBody s) : Int)) := by
+  cases s with
+  | nil => simp [parseInt, intBody]
+  | cons c rest =>
+    unfold parseInt
+    by_cases h45 : c = 45
+    · subst h45
+      have hbody : intBody (45 :: rest) = rest := by simp [intBody]
+      have hneg : isNeg (45 :: rest) := by simp [isNeg]
+      rw [hbody, if_pos hneg]
+      simp only [if_true]
+      cases rest with
+      | nil => simp
+      | cons r rs =>
+        have hne : (r :: rs) ≠ [] := by simp
+        simp only [List.isEmpty_cons, Bool.false_eq_true, if_false]
+        rw [parseU_ok_iff bits hub _ hne]
+        simp [hne]
+    · by_cases h43 : c = 43
+      · subst h43
+        have hbody : intBody (43 :: rest) = rest := by simp [intBody]
+        have hneg : ¬ isNeg (43 :: rest) := by simp [isNeg]
+        rw [hbody, if_neg hneg]
+        simp only [show ¬ ((43:Nat) = 45) by decide, if_false, if_true]
+        cases rest with
+        | nil => simp
+        | cons r rs =>
+          have hne : (r :: rs) ≠ [] := by simp
+          simp only [List.isEmpty_cons, Bool.false_eq_true, if_false]
+          rw [parseU_ok_iff bits hub _ hne]
+          simp [hne]
+      · have hbody : intBody (c :: rest) = c :: rest := by simp [intBody, h45, h43]
+        have hneg : ¬ isNeg (c :: rest) := by simp [isNeg, h45]
+        rw [hbody, if_neg hneg]
+        simp only [h45, h43, if_false]
+        have hne : (c :: rest) ≠ [] := by simp
+        rw [parseU_ok_iff bits hub _ hne]
+        simp [hne]
+
+
 end Radix.DecimalText
